@@ -582,7 +582,7 @@ theorem C13_worker_as_found_order_witness :
   errorPathAsFound_witness
 
 /-- the as-found order does not pass the static check -/
-theorem C13_worker_as_found_order_unsafe (clsOk msgOk : Bool) :
+theorem C13_worker_as_found_order_breaks_invariant (clsOk msgOk : Bool) :
     safeFrom {} (Worker.errorPathAsFound clsOk msgOk) = false := by
   cases clsOk <;> cases msgOk <;> decide
 
